@@ -857,6 +857,7 @@ func (f *Facts) lean() string {
 	tbl("httpTypes", f.HTTPTypes)
 	fmt.Fprintf(&s, "def httpDefault : Http.Source := %s\ndef httpCutSep : List Char := %s\n/-- every probed method without an entry dispatches on the media type alike -/\ndef httpUniform : Bool := %s\n\n", srcOf(f.HTTPDefault), leanChars(f.HTTPCutSep), b(f.HTTPUniform))
 	fmt.Fprintf(&s, "/-- cloneShallow (Pick/Omit/Extend) gives the derived schema its own tests and postTransforms arrays -/\ndef cloneCopies : Bool := %s\n\n", b(f.CloneCopiesTests && f.CloneCopiesPosts))
+	fmt.Fprintf(&s, "/-- SliceSchema.validate hands the validated value a DEEP copy of a nested Default (behavioural probe) -/\ndef sliceDefaultDeep : Bool := %s\n\n", b(f.Probes.SliceDefaultDeep))
 	fmt.Fprintf(&s, "def structValidateTestArg : String := %q\n", f.StructValidateTestArg)
 	fmt.Fprintf(&s, "def structValidatePostArg : String := %q\n", f.StructValidatePostArg)
 	fmt.Fprintf(&s, "def structProcessPostIssue : String := %q\n", f.StructProcessPostWrap)
@@ -881,6 +882,7 @@ var probeDoc = map[string][2]string{
 	"UnexportedGuard":          {"C06", "Struct{a: String()}.Parse(struct{ a string }{\"x\"}): must not panic"},
 	"EmptySegGuard":            {"C06 C10", "nested field tagged `zog:\"\"` with a failing test: rendering the path must not panic"},
 	"MapConvert":               {"C06", "Struct{a: String()}.Parse(namedMap{a: x}) and a map with a named element type: must not panic"},
+	"SliceDefaultDeep":         {"C19", "Slice(Slice(String())).Default([[a b]]).PostTransform(value[0][0] = MUTATED) validated twice on empty values: the second use must still see the default [[a b]] (the validated value must not share the default's inner slices)"},
 	"CloneCopies":              {"C16", "base with three tests; A := base.Pick(a).Test(tA); B := base.Omit(a).Test(tB); C := base.Extend({}).Test(tC): running A must run tA and neither tB nor tC (same with PostTransforms)"},
 }
 
